@@ -128,3 +128,36 @@ def run(ctx):
                  tuned_make=lambda: CBSD(min_segment_length=2, max_interval_length=16, threshold_scale=None, level=0.1))
     reuse_stream(ctx, "CircularBinarySegmentation(GaussianVarCost)", lambda: CBSD(anomaly_score=GaussianVarCost(), min_segment_length=3, max_interval_length=18),
                  ctx.n(2, 12), n_range=(20, 28), p_choices=(1, 2))
+    # ---- built-in cost on multi-column data: the scores table against a brute-force evaluation of the DEFINITION ----
+    import numpy as _np
+    import pandas as _pd
+    from harness import direct as _direct
+    from skchange.costs import L2Cost as _L2
+    for it in range(ctx.n(12, 100)):
+        p = ctx.rng.choice([1, 2, 3])
+        n = ctx.rng.randint(10, 18)
+        m = ctx.rng.choice([1, 2, 3])
+        Xn = _np.asarray([[ctx.rng.randint(-4, 4) + 30.0 * j for j in range(p)] for _ in range(n)], dtype=float)
+        a0 = ctx.rng.randint(1, n - 4)
+        Xn[a0:a0 + 3] += ctx.rng.choice([7.0, -9.0])
+        d = CBSD(anomaly_score=_L2(), min_segment_length=m, max_interval_length=ctx.rng.choice([2 * m + 2, 12]), threshold_scale=0.3).fit(_pd.DataFrame(Xn))
+        d.predict(_pd.DataFrame(Xn))
+        tab = d.scores
+        inp = {"n": n, "p": p, "m": m, "X": Xn.tolist()}
+        ctx.case({"real-cbs": it, "X": Xn.tolist(), "m": m}, nontrivial=p > 1)
+        for _, row in tab.iterrows():
+            s, e = int(row["interval_start"]), int(row["interval_end"])
+            best = None
+            for a in range(s + 1, e):
+                for z in range(a + m, e):
+                    if (a - s) + (e - z) >= m:
+                        v = float(_np.sum(_direct.local_direct("l2", Xn, s, a, z, e)))
+                        if best is None or v > best[0] + 1e-9:
+                            best = (v, a, z)
+            got = float(row["score"])
+            want = 0.0 if best is None else best[0]
+            if abs(got - want) > 1e-7 * (abs(got) + abs(want) + float(_np.sum(Xn ** 2)) + 1):
+                ctx.violation(f"CircularBinarySegmentation(L2Cost), p={p}: candidate [{s},{e}) has score {got}, the maximum of the local anomaly score (definition from the "
+                              f"rows, summed over columns) over the admissible inner intervals is {want}", dict(inp, candidate=[s, e], score=got, definition=want),
+                              {"what": "scores-table-vs-definition", "multi_column": p > 1})
+                break
